@@ -11,20 +11,28 @@
    Process-wide objects are cells of the module region: (OMod, 0) = DEFAULT_TYPES, (OMod, 1) = every other static object of
    the library (module globals, class attributes, default-argument objects such as the dict of
    PDDLFunction.__init__(repeating_variables={})); C07_module_frame: no operation writes them.
-   The model has one switch per repair (fix15, fix16, fix17, fix18); the tree as it stands is
-   (true, true, FALSE, true): D15, D16, D18 repaired, D17 open.
+   The model has one switch per repair (fix15, fix16, fix17, fix18); the tree as it stands (/repo at 3ad2e15 and later)
+   carries all four repairs: cfg_current = all_fixed = (true, true, true, true).
      - C07_frame, C07_frame_reach, C07_repeat, C07_writes_private, C07_thread_discipline, C07_interleave_threads hold
-       in every configuration with fix15, fix16, fix18 -- in particular for the tree as it stands (D17 only
-       aliases, it never writes);
-     - C07_frame_refuted_D15/D16/D18: each unrepaired configuration violates the frame statement (the witness
-       histories are the replays of the defects on the original code);
-     - separation: C07_separation_partial (configurations with D16, D17, D18 repaired), C07_separation_weak (the
-       tree as it stands: a domain reaches only its own cells, a state reaches only cells of states),
-       C07_separation_refuted (finding D17, open: the result of a refused trajectory step IS its input's dicts).
+       in every configuration with fix15, fix16, fix18 -- in particular for the tree as it stands;
+     - separation at full strength for the tree as it stands: C07_separation (no value reaches a cell outside its own
+       region, after every history); C07_separation_partial is the same for every configuration with D16, D17, D18
+       repaired;
+     - statements about EARLIER configurations, kept as the record of the repaired findings:
+       C07_frame_refuted_D15/D16/D18 (each unrepaired configuration violates the frame statement; the witness
+       histories are the replays of the defects on the original code), C07_separation_refuted (the configuration
+       before D17b, (true, true, false, true): the result of a refused trajectory step IS its input's dicts) and
+       C07_separation_weak (what still held there: a domain reaches only its own cells, a state only cells of states);
+     - joint actions (apply_actions, create_multi_agent_triplet, MultiAgentTrajectoryExporter.parse_plan) are histories
+       of the model's operations (Model/Store.v apply_actions_at / ma_triplet_at / ma_plan_at; their temporaries are
+       handles), so all of the above speaks about them; C07_joint_frame instantiates the frame theorem,
+       C07_apply_actions_fresh / C07_apply_actions_unshared: the state apply_actions returns is a handle created by
+       the call -- never the state it was given -- and shares no cell with any value live before the call.
    Not modelled: CPython's scheduler, the GIL and byte-code atomicity -- the interleaving theorems are about
    interleavings of container-level Read/Write events. *)
 From Coq Require Import List Bool Arith.
-From Verif Require Import Model.Store Proofs.C07_Frame Proofs.C07_Interleave Proofs.C07_Sep Proofs.C07_Threads.
+From Verif Require Import Model.Store Proofs.C07_Frame Proofs.C07_Interleave Proofs.C07_Sep Proofs.C07_Threads
+  Proofs.C07_Joint.
 Import ListNotations.
 
 (* every write of an operation targets an operator's own cell or a cell of a value the call itself creates *)
@@ -61,8 +69,8 @@ Theorem C07_repeat : forall c h1 h2 vs, writes_fixed c = true ->
   map (snd r2) (flat_map (reach (fst r1)) vs) = map (snd r1) (flat_map (reach (fst r1)) vs).
 Proof. exact repeat_lemma. Qed.
 
-(* Example (non-vacuity): the hypotheses are satisfiable by the tree as it stands, on a history that really writes (operator leaves,
-   fresh states) and really aliases (D17) *)
+(* Example (non-vacuity): the hypotheses are satisfiable (here by the configuration before D17b), on a history that really
+   writes (operator leaves, fresh states) and really aliases (D17) *)
 Theorem C07_frame_nonvacuous :
   writes_fixed (only true true false true) = true /\
   let r := run (only true true false true) ex_hist start in
@@ -70,13 +78,54 @@ Theorem C07_frame_nonvacuous :
    Nat.ltb 2 (snd r (OOp 0, 2)) && negb (separated (fst r))) = true.
 Proof. exact (conj eq_refl ex_hist_nontrivial). Qed.
 
-(* separation: independent values share no mutable cell *)
+(* separation: independent values share no mutable cell.  Full statement, for the tree as it stands *)
+Theorem C07_separation : separation_statement cfg_current.
+Proof. exact separation_current. Qed.
+
+Theorem C07_current_configuration :
+  cfg_current = all_fixed /\ writes_fixed cfg_current = true /\ sep_fixed cfg_current = true.
+Proof. exact (conj eq_refl cfg_current_fixed). Qed.
+
+(* ... and for every configuration with D16, D17, D18 repaired *)
 Theorem C07_separation_partial : forall c, sep_fixed c = true -> separation_statement c.
 Proof. exact (fun c F h => separation_holds c h F). Qed.
 
+(* what holds without the D17 repair too (the configuration before 3ad2e15) *)
 Theorem C07_separation_weak : forall c h, fix16 c = true -> fix18 c = true ->
   weakly_separated (fst (run c h start)).
 Proof. exact weak_separation_holds. Qed.
+
+(* joint actions: frame for apply_actions / create_multi_agent_triplet / parse_plan (rendered by the model from the call's
+   arguments, Model/Store.v) from any model state satisfying the invariant *)
+Theorem C07_joint_frame : forall c j m st v, writes_fixed c = true -> Inv m -> In v (values m) ->
+  let r := run c (jrender m j) (m, st) in
+  In v (values (fst r)) /\ reach (fst r) v = reach m v /\ forall l, In l (reach m v) -> snd r l = st l.
+Proof. exact joint_frame. Qed.
+
+(* the state apply_actions returns is a handle the call creates: never the state it was given, whatever the joint
+   action (nobody acts, one member, several; refused calls return nothing) *)
+Theorem C07_apply_actions_fresh : forall c m d s objs ms allow r,
+  snd (apply_actions_ops m d s objs ms allow) = Some r ->
+  length (sts m) <= r < length (sts (mrun c (fst (apply_actions_ops m d s objs ms allow)) m)).
+Proof. exact apply_actions_fresh. Qed.
+
+(* ... and (tree as it stands) it shares no mutable cell with the input state nor with any other value live before *)
+Theorem C07_apply_actions_unshared : forall h d s objs ms allow r v,
+  let m := fst (run cfg_current h start) in
+  let m' := mrun cfg_current (fst (apply_actions_ops m d s objs ms allow)) m in
+  snd (apply_actions_ops m d s objs ms allow) = Some r -> In v (values m) ->
+  In (OSt r) (values m') /\ ~ In (OSt r) (values m) /\ shares m' (OSt r) v = false.
+Proof. exact apply_actions_unshared. Qed.
+
+(* Example: two members act and one idles (result = handle 3, two intermediate states), nobody acts (result = the copy),
+   one inapplicable member without permission (no result) *)
+Theorem C07_joint_example :
+  let m := fst (run cfg_current ex_joint_prefix start) in
+  snd (apply_actions_ops m 0 0 (Some 0) ex_members false) = Some 3 /\
+  length (sts (mrun cfg_current (fst (apply_actions_ops m 0 0 (Some 0) ex_members false)) m)) = 4 /\
+  snd (apply_actions_ops m 0 0 (Some 0) [None; None] false) = Some 1 /\
+  snd (apply_actions_ops m 0 0 None [Some {| mb_act := 0; mb_sh := ex_sh; mb_app := false |}] false) = None.
+Proof. exact ex_joint. Qed.
 
 (* the two per-step observables the correspondence run compares with the implementation (Corr/C07.v: may_change =
    "values this call may have changed", sharing = "pairs of roots with a common mutable cell") are provably clean for
@@ -146,6 +195,12 @@ Print Assumptions C07_frame_reach.
 Print Assumptions C07_module_frame.
 Print Assumptions C07_repeat.
 Print Assumptions C07_frame_nonvacuous.
+Print Assumptions C07_separation.
+Print Assumptions C07_current_configuration.
+Print Assumptions C07_joint_frame.
+Print Assumptions C07_apply_actions_fresh.
+Print Assumptions C07_apply_actions_unshared.
+Print Assumptions C07_joint_example.
 Print Assumptions C07_separation_partial.
 Print Assumptions C07_separation_weak.
 Print Assumptions C07_predicts_no_change.
